@@ -6,7 +6,15 @@ set -e
 P=$1; R=$2; T=${3:-quick}
 V=$(cd "$(dirname "$0")/.." && pwd)
 M=/work/MUT
-[ -d "$M" ] || git -C "$V" worktree add -q -f "$M" -B wt-MUT main
+if [ ! -d "$M" ]; then
+  mkdir -p /work
+  git -C "$V" worktree add -q -f "$M" -B wt-MUT main
+  # copy the build products of the main tree so that the first run is incremental
+  rsync -a --include="*/" --include="*.vo" --include="*.vos" --include="*.vok" --include="*.glob" --include=".*.aux" --exclude="*" "$V/coq/" "$M/coq/"
+  mkdir -p "$M/.build"
+  for d in ocaml cargo; do [ -d "$V/.build/$d" ] && cp -a "$V/.build/$d" "$M/.build/$d"; done
+  find "$M/coq" \( -name '*.vo' -o -name '*.vos' -o -name '*.vok' -o -name '*.glob' \) -exec touch {} +
+fi
 cd "$M"
 git checkout -q wt-MUT 2>/dev/null || true
 git reset -q --hard main
